@@ -298,8 +298,19 @@ func (e *Engine) VerifyFunction(fn *ssa.Function, ct *Contract, timeoutMs, par i
 			ac.Hits = 0
 		}
 	}
+	x.stepHits = map[*Clause]int{}
 	exit, results, fr := x.run(fn, s, args, bindings, ct, false)
 	_ = fr
+	if ct != nil {
+		for n, lc := range ct.Loops {
+			for k, stp := range lc.Steps {
+				if x.stepHits[stp] == 0 {
+					x.C.Oblige(fmt.Sprintf("%s#loop%d.step%d.unbound", unit, n, k), "step", fmt.Sprintf("%s:%d", filepath.Base(stp.File), stp.Line),
+						"the step clause binds at some back edge of the loop", True, False)
+				}
+			}
+		}
+	}
 	if ct != nil {
 		for k, ac := range ct.AtCalls {
 			if ac.Hits == 0 {
@@ -558,7 +569,24 @@ func (x *Exec) obligeKnown(env *specEnv, name, kind, pos, clause string, reach, 
 				if err != nil {
 					unsup("known finding class: %v", err)
 				}
-				cls = env.evalBool(pe)
+				// a class that names locals which do not exist at this program point does not
+				// describe this obligation (the code changed shape): the finding suppresses nothing
+				bound := func() (ok bool) {
+					defer func() {
+						if r := recover(); r != nil {
+							if u, isU := r.(unsupported); isU && strings.Contains(u.msg, "unknown identifier") {
+								ok = false
+								return
+							}
+							panic(r)
+						}
+					}()
+					cls = env.evalBool(pe)
+					return true
+				}()
+				if !bound {
+					continue
+				}
 			}
 			cls = x.C.Define("kfclass", cls)
 			o := &Obligation{Unit: x.C.Unit, Name: name + "[known]", Kind: kind, Pos: pos, Clause: clause, logLen: len(x.C.log),
